@@ -93,6 +93,7 @@ def step (cx : Ctx) (line : String) : String :=
   | "merge" :: args => Ach.MergeDriver.run args
   | "flatten" :: args => Ach.FlattenDriver.run args
   | "segment" :: args => Ach.SegmentDriver.run args
+  | "segmentiat" :: args => Ach.SegmentDriver.runIat args
   | "reversal" :: args => Ach.ReversalDriver.run args
   | "filecreate" :: args => Ach.FileCreate.runLine args
   | ["mask", "number", h] =>
